@@ -65,9 +65,21 @@ pub enum FaultKind {
     /// sequences (and, for odd seeds of the soup form, invalid bytes), so multi-byte characters
     /// straddle every offset
     Soup { seed: u16, len: u16 },
+    /// a frame without a document: nothing at all between two terminators (`ws` = 0) or only
+    /// white space (1 = ` `, 2 = ` \n`, 3 = `\t\r\n`)
+    Blank { ws: u8 },
     /// a well-formed Echo call that is `over` bytes longer than the compiled-in size limit of the
     /// receive buffer (only generated in the small-limit build: the production limit is 100 MiB)
     Oversized { over: u16 },
+}
+
+impl FaultKind {
+    /// Is the frame a well-formed call object (a JSON object with a `method` string and no flag
+    /// asking for silence) that the service merely cannot decode? Such a call is owed an answer:
+    /// a server that neither answers it nor ends the connection shifts every later reply.
+    pub fn is_undecodable_call(self) -> bool {
+        matches!(self, FaultKind::UnknownMethod | FaultKind::WrongTypes | FaultKind::MissingParam)
+    }
 }
 
 /// `len` bytes of NUL-free content drawn from a mixed alphabet (deterministic in `seed`).
@@ -102,7 +114,11 @@ pub fn soup_content(seed: u16, len: usize, allow_invalid: bool) -> Vec<u8> {
     out
 }
 
-pub const FAULT_KINDS: [FaultKind; 8] = [
+pub const FAULT_KINDS: [FaultKind; 12] = [
+    FaultKind::Blank { ws: 0 },
+    FaultKind::Blank { ws: 1 },
+    FaultKind::Blank { ws: 2 },
+    FaultKind::Blank { ws: 3 },
     FaultKind::Garbage,
     FaultKind::BadUtf8,
     FaultKind::WrongShape,
@@ -221,6 +237,7 @@ impl FrameSpec {
             }
             FrameSpec::Fault(k) => match k {
                 FaultKind::Garbage => b"}{".to_vec(),
+                FaultKind::Blank { ws } => [&b""[..], b" ", b" \n", b"\t\r\n"][ws as usize % 4].to_vec(),
                 FaultKind::BadUtf8 => {
                     let mut v = br#"{"method":"org.example.Echo","parameters":{"c":0,"id":0,"pad":""#.to_vec();
                     v.extend_from_slice(&[0xff, 0xfe]);
@@ -676,6 +693,8 @@ pub struct ConnModel {
     pub dead: bool,
     /// parked in streaming mode with the stream still open
     pub streaming: bool,
+    /// the undecodable frame that ended the modelled part: (index in the script, kind)
+    pub fault: Option<(usize, FaultKind)>,
 }
 
 pub fn normalize(mut v: Value) -> Value {
@@ -692,7 +711,7 @@ pub fn model_conn(sc: &Scenario, c: usize, obs: &Observation) -> ConnModel {
     let script = &sc.conns[c];
     let ends = script.frame_ends(c);
     let complete = ends.iter().filter(|&&e| e <= obs.delivered[c]).count();
-    let mut m = ConnModel { out: vec![], handled: vec![], dead: false, streaming: false };
+    let mut m = ConnModel { out: vec![], handled: vec![], dead: false, streaming: false, fault: None };
     if !obs.arrived[c] {
         return m;
     }
@@ -706,10 +725,11 @@ pub fn model_conn(sc: &Scenario, c: usize, obs: &Observation) -> ConnModel {
         m.out.push(v);
         true
     };
-    for f in &script.frames[..complete] {
+    for (fi, f) in script.frames[..complete].iter().enumerate() {
         match *f {
-            FrameSpec::Fault(_) => {
+            FrameSpec::Fault(k) => {
                 m.dead = true;
+                m.fault = Some((fi, k));
                 return m;
             }
             FrameSpec::Call { kind, id, oneway, pad, .. } => {
@@ -873,7 +893,44 @@ pub fn judge_trace(sc: &Scenario, trace: &Trace) -> Result<(), Fail> {
                 .map(|e| (e.1, e.2))
                 .collect();
             let is_prefix = handled.len() <= m.handled.len() && handled[..] == m.handled[..handled.len()];
-            let ok = if m.dead || !at_boundary { is_prefix } else { handled == m.handled };
+            let mut ok = if m.dead || !at_boundary { is_prefix } else { handled == m.handled };
+            // The model ends a connection at its first undecodable frame, which is what zlink does.
+            // The listed properties do not demand that ("end *at most* that connection"): a server
+            // may also skip a frame that is not a call and carry on, or answer a well-formed call it
+            // cannot decode with an error and carry on. What they do exclude is handling a call
+            // twice or out of order, and carrying on behind a well-formed, reply-expecting call
+            // without having answered it (every later reply would be taken for the wrong call).
+            if !ok && m.dead {
+                if let Some((fi, kind)) = m.fault {
+                    let complete = sc.conns[c].frame_ends(c).iter().filter(|&&e| e <= obs.delivered[c]).count();
+                    let later: Vec<(u32, CallKind)> = sc.conns[c].frames[fi + 1..complete.max(fi + 1)]
+                        .iter()
+                        .filter_map(|f| match f {
+                            FrameSpec::Call { kind, id, .. } => Some((*id, *kind)),
+                            _ => None,
+                        })
+                        .collect();
+                    let pre = m.handled.len();
+                    let carried_on = handled.len() > pre && handled[..pre] == m.handled[..] && {
+                        // a subsequence of the later calls: none twice, none out of order
+                        let mut it = later.iter();
+                        handled[pre..].iter().all(|h| it.any(|l| l == h))
+                    };
+                    if carried_on && kind.is_undecodable_call() {
+                        let answered = got.len() > m.out.len() && got[m.out.len()].get("error").is_some();
+                        if !answered {
+                            return Err(Fail::new(
+                                "undecodable-call-skipped-without-answer",
+                                format!(
+                                    "connection {c} at {at}: frame {fi} is a well-formed call the service cannot decode ({kind:?}); the server neither answered it nor ended the connection but went on to handle {:?}: every later reply is taken for the wrong call",
+                                    &handled[pre..]
+                                ),
+                            ));
+                        }
+                    }
+                    ok = carried_on;
+                }
+            }
             if !ok {
                 return Err(Fail::new(
                     "calls-not-handled-once-in-order",
